@@ -171,3 +171,20 @@ Theorem key_cpl :
     k_cpl (pack a) (N.of_nat (length a)) (pack b) (N.of_nat (length b)) = N.of_nat (lcp a b).
 Proof. exact KeyLift.key_cpl_general. Qed.
 Print Assumptions key_cpl.
+
+(* ---- extension of the quantifier to FAULTS: histories in which some operations
+   fail (return an error) and are retried.  On the functional model a failed
+   operation is the identity by construction, so this is immediate; the
+   implementation side is checked by the fault-injection twins of the harness
+   (a node database read error in the middle of an operation, retry, same root
+   as the fault-free history). ---- *)
+Theorem failed_op_leaves_tree : forall t o, apply_fop t (FFailed o) = t.
+Proof. exact CorrProofs.failed_op_leaves_tree. Qed.
+Print Assumptions failed_op_leaves_tree.
+
+Theorem root_depends_only_on_contents_with_faults :
+  forall fs1 fs2, Forall op_valid (succeeded fs1) -> Forall op_valid (succeeded fs2) ->
+    contents (run_f fs1) = contents (run_f fs2) ->
+    run_f fs1 = run_f fs2 /\ forall H : bytes -> bytes, root_hash H (run_f fs1) = root_hash H (run_f fs2).
+Proof. exact CorrProofs.root_depends_only_on_contents_with_faults. Qed.
+Print Assumptions root_depends_only_on_contents_with_faults.
